@@ -106,7 +106,7 @@ def run(ctx):
     # ---------------------------------------------------------------- R2 speculative writes undone
     split = L.mode_split(P, SCR, "definitive")
     exclude = {k: t for k, (t, f) in split.items() if t}
-    ctx.floor("C11-R2", "functions branching on scratch.definitive", len(split), 8)
+    ctx.floor("C11-R2", "functions branching on scratch.definitive", len(split), 7)
     roots = set()
     rs = ctx.body(PS + "::run_speculative")
     for caller in P.callers_of(rs.id):
